@@ -12,6 +12,7 @@ import (
 	"bytes"
 	"encoding/json"
 	"fmt"
+	"math/rand"
 	"net/http/httptest"
 	"os"
 	"path/filepath"
@@ -318,6 +319,37 @@ func c19Cases(canaryTag string, thorough bool) []c19Case {
 	mapEnv := ySetLeaf(doc, yPath{6}, ym{kv("VERIF_C19_E3", "`touch "+canaryTag+"`"), kv("VERIF_C19_E4", "${HOME}")})
 	b, _ = yaml.Marshal(mapEnv)
 	out = append(out, c19Case{Field: "env(map)", Plant: "backtick", Text: string(b)})
+	// plants at random string leaves of randomly generated valid definitions
+	// (other combinations of fields than the full document has)
+	nrand := 24
+	if thorough {
+		nrand = 600
+	}
+	rr := rand.New(rand.NewSource(20260930))
+	for i := 0; i < nrand; i++ {
+		rd := genDoc(rr)
+		if i%2 == 1 {
+			rd = genExecDoc(rr)
+		}
+		var rp []yPath
+		yWalk(rd, nil, &rp)
+		var leaves []yPath
+		for _, p := range rp {
+			if _, ok := yGet(rd, p).(string); ok {
+				leaves = append(leaves, p)
+			}
+		}
+		if len(leaves) == 0 {
+			continue
+		}
+		p := leaves[rr.Intn(len(leaves))]
+		pl := plants[rr.Intn(len(plants))]
+		b, err := yaml.Marshal(ySetLeaf(rd, p, pl.text))
+		if err != nil {
+			continue
+		}
+		out = append(out, c19Case{Field: fmt.Sprintf("random-doc-%d:%s", i, yPathName(rd, p)), Plant: pl.name, Text: string(b)})
+	}
 	if thorough {
 		// the same plants in a document that is otherwise minimal, and duplicated placements
 		for _, fld := range []string{"logDir", "params", "description", "name"} {
@@ -353,6 +385,15 @@ func evaluatedByLoad(field, plant string) bool {
 		return true
 	}
 	return false
+}
+
+func keyField(f string) string {
+	if strings.HasPrefix(f, "random-doc-") {
+		if i := strings.Index(f, ":"); i > 0 {
+			return f[i+1:]
+		}
+	}
+	return f
 }
 
 func c19Body(c *core.Ctx) {
@@ -428,10 +469,10 @@ func c19Body(c *core.Ctx) {
 				c.Count("entry_panics", 1) // C13's business; recorded only
 			}
 			if ph.Canary {
-				c.Violate(idx, "exec|"+ph.Entry+"|"+cs.Field, fmt.Sprintf("%s executed the command planted in field %s (%s): the canary file was created", ph.Entry, cs.Field, cs.Plant), caseDesc)
+				c.Violate(idx, "exec|"+ph.Entry+"|"+keyField(cs.Field), fmt.Sprintf("%s executed the command planted in field %s (%s): the canary file was created", ph.Entry, cs.Field, cs.Plant), caseDesc)
 			}
 			if ex := execs[ph.Entry]; len(ex) > 0 && !ph.Canary {
-				c.Violate(idx, "process|"+ph.Entry+"|"+cs.Field, fmt.Sprintf("%s created process(es) %v while loading a definition with a plant in field %s (%s)", ph.Entry, ex, cs.Field, cs.Plant), caseDesc)
+				c.Violate(idx, "process|"+ph.Entry+"|"+keyField(cs.Field), fmt.Sprintf("%s created process(es) %v while loading a definition with a plant in field %s (%s)", ph.Entry, ex, cs.Field, cs.Plant), caseDesc)
 			}
 			if len(ph.EnvDiff) > 0 {
 				c.Violate(idx, "env|"+ph.Entry+"|"+strings.Join(ph.EnvDiff, ","), fmt.Sprintf("%s changed the environment of the loading process: %v (plant in field %s)", ph.Entry, ph.EnvDiff, cs.Field), caseDesc)
@@ -485,6 +526,6 @@ func init() {
 			return []core.Pass{{Name: "main", Mode: "plant", Shards: 16, Timeout: 40 * time.Minute}}
 		},
 		Exhaustive:  func(tier string) bool { return true },
-		Rule:        "A full definition containing every string-valued field of the grammar (name, group, description, tags, schedule, logDir, env list and map, params, DAG and step preconditions, four handlers, smtp, error/info mail, functions, step description/dir/command (string and list)/script/stdout/stderr/output/depends/executor type and nested config/call args/sub-workflow and its params/step env/signalOnStop) is enumerated leaf by leaf: each string leaf in turn is replaced by a plant (`touch canary`, text with an embedded backtick command, $(touch canary), NAME=`touch canary`; thorough: all four plants on every leaf, minimal documents, every field at once). For each document one worker process, traced by the ptrace supervisor with execve logging, runs 30 non-executing entry points in sequence, each bracketed by a phase mark: dag.LoadYAML / LoadMetadata / LoadWithoutEval, DAGStore.GetMetadata / GetDetails / GetSpec / List / ListPagination / Grep / Find / TagList / UpdateSpec, client.GetStatus / GetAllStatus / GetDAGSpec / UpdateDAG / Grep, the assembled web API (GET /dags, paginated list, GET /dags/{id} for five tabs, /search, /tags, POST save) and the scheduler daemon (directory scan, watcher reload, one tick). After every phase: canary file exists (command executed), os.Environ() differs from before the phase, the supervisor logged an execve of a descendant between the phase marks (field-agnostic). Positive control: for fields that starting a DAG evaluates (env values, logDir, a parameter that is a backtick command) dag.Load on the same document must create the canary, and on the plain document must export the env/params variables — otherwise the run is inconclusive. exhaustive=true refers to the enumeration of string leaves of the full document x entry points. Non-trivial/distinct = (field, plant).",
+		Rule:        "A full definition containing every string-valued field of the grammar (name, group, description, tags, schedule, logDir, env list and map, params, DAG and step preconditions, four handlers, smtp, error/info mail, functions, step description/dir/command (string and list)/script/stdout/stderr/output/depends/executor type and nested config/call args/sub-workflow and its params/step env/signalOnStop) is enumerated leaf by leaf: each string leaf in turn is replaced by a plant (`touch canary`, text with an embedded backtick command, $(touch canary), NAME=`touch canary`; plus 24 (600) randomly generated valid definitions with a plant at a random string leaf; thorough: minimal documents, every field at once). For each document one worker process, traced by the ptrace supervisor with execve logging, runs 30 non-executing entry points in sequence, each bracketed by a phase mark: dag.LoadYAML / LoadMetadata / LoadWithoutEval, DAGStore.GetMetadata / GetDetails / GetSpec / List / ListPagination / Grep / Find / TagList / UpdateSpec, client.GetStatus / GetAllStatus / GetDAGSpec / UpdateDAG / Grep, the assembled web API (GET /dags, paginated list, GET /dags/{id} for five tabs, /search, /tags, POST save) and the scheduler daemon (directory scan, watcher reload, one tick). After every phase: canary file exists (command executed), os.Environ() differs from before the phase, the supervisor logged an execve of a descendant between the phase marks (field-agnostic). Positive control: for fields that starting a DAG evaluates (env values, logDir, a parameter that is a backtick command) dag.Load on the same document must create the canary, and on the plain document must export the env/params variables — otherwise the run is inconclusive. exhaustive=true refers to the enumeration of string leaves of the full document x entry points. Non-trivial/distinct = (field, plant).",
 		Assumptions: []string{"the field grammar is the full document of c19.go plus the process-creation monitor, which does not depend on knowing the fields", "base configuration files are not planted"}})
 }
